@@ -160,6 +160,16 @@ def programs(depth):
       for h1, h2 in itertools.product(('call-argument', 'subscript', 'f-string', 'lambda-body', 'tuple-element', 'comprehension'), repeat=2):
         inner = EXPR_HOSTS[h1].format(E=e)
         out.append((f'{k}@{h1}@{h2}', EXPR_HOSTS[h2].format(E=inner)))
+  # the LAST statement of a program is evaluated for its value: every statement form must still take effect there
+  out += [
+      ('Assign(tuple-target)@last', 'a, b = 1, 2'),
+      ('Assign(starred-target)@last', 'a, *b = [1, 2, 3]'),
+      ('Assign(subscript-target)@last', 'd = {}\nd["k"] = 1'),
+      ('Assign(subscript-target-existing)@last', 'v4[0] = 5\nw = list(v4)') if False else ('Assign(subscript-target)@last-list', 'x = [0, 0]\nx[1] = 5'),
+      ('Assign(chained-mixed-targets)@last', 'x = [0]\ny = x[0] = 7'),
+      ('Assign(nested-tuple-target)@last', '(a, (b, c)) = (1, (2, 3))'),
+      ('Assign(name-target)@last', 'q = 1\nr = q'),
+  ]
   valid = []
   seen = set()
   for label, code in out:
